@@ -2,7 +2,7 @@
 C10 — REQUIRED parameters are filled from the config or the call fails cleanly.
 -/
 import Gin.Lemmas.Call
-import Gin.State
+import Gin.Machine
 
 namespace Gin.C10
 open Gin Gin.AList
